@@ -124,3 +124,20 @@ add(fam("wtlfu", wt_shapes((2, 1, 1)) + wt_shapes((1, 2, 1)) + wt_shapes((1, 1, 
     ["h_wtlfu::c111n100::getest", "h_wtlfu::c111n010::getest", "h_wtlfu::c111n001::getest"],
     WT_STEP, "thorough", 3,
     "WTinyLFUCache<u8,u8>: capacities (2,1,1),(1,2,1),(1,1,2) all occupancies and (2,2,2) with full segments", mem=8, tmul=2)
+
+# ---- constructors / conversions ------------------------------------------------------------------
+add(["h_ctor::raw_all_constructors", "h_ctor::sampled_constructors", "h_ctor::tinylfu_ctor_invalid",
+     "h_ctor::tinylfu_ctor_valid_grid", "h_ctor::tinylfu_new_usable", "h_ctor::wtinylfu_ctor_sizes",
+     "h_ctor::wtinylfu_ctor_ratios", "h_ctor::wtinylfu_new", "h_ctor::twoq_new_sym", "h_ctor::twoq_with_recent_ratio_sym",
+     "h_ctor::twoq_with_ghost_ratio_sym", "h_ctor::twoq_with_2q_parameters_sym", "h_ctor::twoq_builder_sym",
+     "h_ctor::conv_n0", "h_ctor::conv_n1", "h_ctor::conv_n2"],
+    ["C05", "C01", "C08", "C10", "C11", "C20", "C06"], "quick", 4,
+    "constructors/builders: RawLRU (all four, cap full usize), SegmentedCache/AdaptiveCache (sizes <= 3), TwoQueueCache "
+    "(sizes 1 and 3, ratio = arbitrary f64 bit pattern), TinyLFU::new (size, samples <= 4; invalid class: arbitrary f64; "
+    "valid class: ratio grid), WTinyLFUCache (grid of zero/non-zero sizes, ratio grid incl. NaN/inf/out-of-range; "
+    "new(size<=400)), SampledLFU (all seven); conversions From<[_;N]>/Vec/&[_]/FromIterator with N <= 2", mem=6)
+add(["h_ctor::twoq_new", "h_ctor::twoq_with_recent_ratio", "h_ctor::twoq_with_ghost_ratio", "h_ctor::twoq_with_2q_parameters",
+     "h_ctor::twoq_builder", "h_ctor::tinylfu_ctor_valid_symbolic_ratio", "h_ctor::conv_n3"],
+    ["C05", "C08", "C11", "C06"], "thorough", 4,
+    "TwoQueueCache constructors over the grid sizes {0,1,2,3,7,100} x ratios {0,1,.25,.5,.999,-0,-.5,1.5,NaN,inf}; "
+    "TinyLFU::new with a symbolic ratio in [2^-64,1); conversions with N = 3", mem=8, tmul=2)
